@@ -541,6 +541,13 @@ pub fn pattern_constrains_recursive_field(
     value_type: usize,
     program: &mut Program,
 ) -> bool {
+    // An alternation constrains a recursive field as soon as one of its alternatives does: the
+    // complement subtracts every alternative's (over-approximated) narrowed type.
+    if let ast::Match::Or(alternatives) = pattern {
+        return alternatives
+            .iter()
+            .any(|alternative| pattern_constrains_recursive_field(alternative, value_type, program));
+    }
     let ast::Match::Tuple(tuple) = pattern else {
         return false;
     };
